@@ -121,6 +121,34 @@ def check_case(b, bp, ref, mi, tree, res: Result, w, rng):
                           f"{mi.full_name}: message decoded from {data.hex()[:200]} cannot be encoded again ({out[5]})", ww)
         return out
 
+    def _judge_framed(data: bytes, ww):
+        """the same corrupted bytes arriving as one frame of a size-delimited stream, followed by a healthy frame: the
+        sized loader must raise or return a usable message having consumed EXACTLY the announced size -- a corrupted
+        inner length must not make it read into the next frame"""
+        import io as _io
+
+        import betterproto
+
+        follow = spec.enc_varint(len(e0)) + e0
+        frame = spec.enc_varint(len(data)) + data
+        st = _io.BytesIO(frame + follow)
+        res.note("framed_decodes")
+        try:
+            m = cls().load(st, betterproto.SIZE_DELIMITED)
+        except Exception:
+            res.note("outcome:framed:raised")
+            return
+        res.note("outcome:framed:returned")
+        if st.tell() != len(frame):
+            res.violation("sized-load-overrun", ["corrupt-len", "consumed-other-than-announced-size"],
+                          f"{mi.full_name}: load(SIZE_DELIMITED) of a frame announcing {len(data)} bytes returned after consuming {st.tell() - spec.varint_len(len(data))}; "
+                          f"frame {data.hex()[:160]}", ww)
+            return
+        try:
+            bytes(m)
+        except Exception as e:
+            res.violation("reencodable", ["corrupt-len-framed", "bytes-raised:" + type(e).__name__], f"{mi.full_name}: {e!r}; frame {data.hex()[:160]}", ww)
+
     # (1) truncations ------------------------------------------------------
     if only in (None, "cut"):
         boundaries = {0} | {r.end for r in recs}
@@ -160,6 +188,8 @@ def check_case(b, bp, ref, mi, tree, res: Result, w, rng):
                     continue
                 data = e0[:pos] + bytes([v]) + e0[pos + 1:]
                 judge_generic(data, "corrupt-" + what, dict(w, mal="corrupt", pos=pos, val=v, what=what))
+                if what == "len":
+                    _judge_framed(data, dict(w, mal="corrupt", pos=pos, val=v, what=what))
 
     # (3) wire-type substitution matrix (once per message type: on the empty and the maximal value)
     if (only is None and w.get("tag") in ("empty", "maximal")) or only == "wt":
